@@ -282,6 +282,22 @@ def random_expr(rng, size, names):
     return random_expr(rng, k, names) + [rng.choice(BINOPS)] + random_expr(rng, max(1, size - 1 - k), names)
 
 
+def xor_family():
+    atoms = [["p"], ["q"], ["~", "p"], ["~", "q"]]
+    fam = []
+    for a, b, c in itertools.product(atoms, repeat=3):
+        for op in ("&", "|"):
+            fam.append(a + ["^", "("] + b + [op] + c + [")"])
+            fam.append(["("] + b + [op] + c + [")", "^"] + a)
+    return fam
+
+
+def full_family():
+    """the deterministic input family of C20: every in-language token string up to 5 tokens over {p,q,r,true,false,~,&,|,^,(,)}
+    and the 256 xor shapes x ^ (y op z) / (y op z) ^ x over p, q, ~p, ~q"""
+    return well_formed_upto(5) + xor_family()
+
+
 NAME_SETS = [["p", "q", "r"], ["foo", "Bar", "a"], ["q", "pq", "p", "Z"], ["b", "a", "ab", "B"]]
 MALFORMED_EXTRA = [[], ["p", "q"], ["(", ")"], ["p", "&"], ["&", "p"], ["(", "p"], ["p", ")"], ["~"], ["p", "~", "q"], ["p", "&", "&", "q"],
                    ["1"], ["p1"], ["p", "&", "1"], ["p", "=", "q"], ["p", "&&", "q"], ["p", "and", "q"], ["!", "p"], ["p", ";"], ["_x"],
@@ -294,6 +310,7 @@ def expression_space(payload, for_search=False):
     bound = 5 if thorough else 4
     good = [(ts, spaced(ts)) for ts in well_formed_upto(bound)]
     n_exh = len(good)
+    family_keys = {" ".join(ts) for ts, _ in good}
     if not thorough:                                       # a seeded slice of the next length as well
         five = [list(ts) for ts in itertools.product(TOKENS, repeat=5) if in_language(list(ts))]
         good += [(ts, spaced(ts, rng)) for ts in rng.sample(five, 250)]
@@ -302,20 +319,17 @@ def expression_space(payload, for_search=False):
         ts = random_expr(rng, rng.randrange(5, 10), names)
         good.append((ts, spaced(ts, rng)))
     # the operand shapes of the xor rules (x ^ (y op z) and mirrored), where the optimizer's known findings live
-    atoms = [["p"], ["q"], ["~", "p"], ["~", "q"]]
-    fam = []
-    for a, b, c in itertools.product(atoms, repeat=3):
-        for op in ("&", "|"):
-            fam.append(a + ["^", "("] + b + [op] + c + [")"])
-            fam.append(["("] + b + [op] + c + [")", "^"] + a)
-    good += [(ts, spaced(ts)) for ts in (fam if thorough else rng.sample(fam, 60))]
+    fam = xor_family()
+    picked = fam if thorough else rng.sample(fam, 60)
+    good += [(ts, spaced(ts)) for ts in picked]
+    family_keys |= {" ".join(ts) for ts in picked}
     bad = []
     pool = [list(ts) for k in range(1, 5) for ts in itertools.product(TOKENS, repeat=k) if not in_language(list(ts))]
     bad += [ts for ts in pool if len(ts) <= 2]
     bad += rng.sample([ts for ts in pool if len(ts) > 2], 1500 if thorough else 250)
     bad += MALFORMED_EXTRA
     bad = [(ts, spaced(ts) if all(t in TOKENS for t in ts) else " ".join(ts)) for ts in bad]
-    return good, bad, {"exhaustive_token_bound": bound, "exhaustive_in_language": n_exh}
+    return good, bad, {"exhaustive_token_bound": bound, "exhaustive_in_language": n_exh, "family_keys": family_keys}
 
 
 CONFIGS = [("table", False), ("table", True), ("json", False), ("json", True)]
@@ -396,6 +410,7 @@ def correspondence(payload):
     rng = rng_of(payload)
     mism = fingerprint_mismatches()
     good, bad, info = expression_space(payload)
+    info.pop("family_keys")
     cx = Cx()
     items, meta = [], []
     dist = {"in_language": 0, "rejected_by_parser": 0, "by_tokens": {}, "by_outcome": {}}
@@ -601,6 +616,8 @@ def witness_fails(k):
 
 def search(payload):
     good, bad, info = expression_space(payload, for_search=True)
+    family_keys = info.pop("family_keys")
+    listed = oc.load_listed("C20") or {}
     fails, n = [], 0
     for ts, text in good:
         n += 1
@@ -618,6 +635,16 @@ def search(payload):
     known_ids = {k["id"] for k in known}
     new, known_hits = [], []
     for f in fails:
+        key = " ".join(f["tokens"])
+        if key in family_keys and not f.get("outside_language"):
+            # a member of the deterministic family is a known finding only when LISTED (tools/props/listed/C20.json)
+            if f.get("optimize") and key in listed and set(listed[key]) <= known_ids:
+                known_hits += [{"id": s, "p": f["text"], "listed": True} for s in listed[key]]
+            else:
+                f["note"] = ("this member of the deterministic input family fails and is not among the failing inputs listed in "
+                             "tools/props/listed/C20.json")
+                new.append(f)
+            continue
         if f.get("optimize") and not f.get("outside_language"):
             if payload.get("model_ok", True):
                 tr = model_trace(f["text"])
@@ -637,6 +664,31 @@ def search(payload):
             "samples": [{"text": good[len(good) // 2][1]}, {"text": bad[len(bad) // 2][1], "outside_language": True}]}
 
 
+def mklisted(_payload):
+    """(reviewed tree only) write tools/props/listed/C20.json: the family members whose -o output is wrong, each explained by
+    listed findings through the model's taint trace; refuses when one is not"""
+    known_ids = {k["id"] for k in vlib.load_known().get("findings", []) if "C20" in k.get("properties", [])}
+    out, bad = {}, []
+    fam = full_family()
+    for ts in fam:
+        text = spaced(ts)
+        b = check_in_language(ts, text)
+        if b is None:
+            continue
+        tr = model_trace(text) if b.get("optimize") else None
+        if tr and set(tr) <= known_ids:
+            out[" ".join(ts)] = sorted(set(tr))
+        else:
+            bad.append({"text": text, **b, "trace": tr})
+    if bad:
+        return {"refused": True, "unexplained": bad[:10]}
+    os.makedirs(oc.LISTED_DIR, exist_ok=True)
+    path = os.path.join(oc.LISTED_DIR, "C20.json")
+    json.dump({"property": "C20", "family": full_family.__doc__.strip(), "members": len(fam), "failing": dict(sorted(out.items()))},
+              open(path, "w"), indent=0)
+    return {"written": path, "members": len(fam), "failing": len(out)}
+
+
 def replay(payload):
     inp = payload["replay"].get("input") or {}
     text = inp.get("text")
@@ -649,4 +701,4 @@ def replay(payload):
 
 
 if __name__ == "__main__":
-    main({"correspondence": correspondence, "search": search, "replay": replay, "fingerprint": write_fingerprint})
+    main({"correspondence": correspondence, "search": search, "replay": replay, "fingerprint": write_fingerprint, "mklisted": mklisted})
